@@ -12,6 +12,9 @@ def get_binding(name, namespace):
 
     for binding in namespace.bindings:
         if binding.name == name:
+            if isinstance(namespace, ast.Module) and name in ['exec', 'eval', 'locals', 'globals', 'vars'] and not binding.is_assigned():
+                # Only declared global, never assigned by this module - this is the builtin
+                namespace.tainted = True
             return binding
 
     if not isinstance(namespace, ast.Module):
